@@ -47,6 +47,7 @@ def make_model(ctx, family, d, K, h=2, cuts=1):
 
 
 class RowLocal(SxContract):
+    float_replay = True
     max_paths = 400
     budget_s = 90
 
